@@ -802,6 +802,12 @@ func FromGeom(t geom.T) (*G, error) {
 	if err := WellFormed(t); err != nil {
 		return nil, err
 	}
+	return fromGeom(t)
+}
+
+// fromGeom is FromGeom without the check (made once, at the top: it covers every
+// member, and repeating it per level is cubic in the depth of a tower).
+func fromGeom(t geom.T) (*G, error) {
 	kind := KindOf(t)
 	g := &G{Kind: kind, SRID: t.SRID()}
 	if gc, ok := t.(*geom.GeometryCollection); ok {
@@ -811,7 +817,7 @@ func FromGeom(t geom.T) (*G, error) {
 			g.Layout = int(gc.Layout())
 		}
 		for i := 0; i < gc.NumGeoms(); i++ {
-			m, err := FromGeom(gc.Geom(i))
+			m, err := fromGeom(gc.Geom(i))
 			if err != nil {
 				return nil, err
 			}
